@@ -5,7 +5,6 @@ import (
 	"bytes"
 	"encoding/json"
 	"fmt"
-	"reflect"
 	"runtime"
 	"sync"
 
@@ -66,53 +65,6 @@ func entries(fc uint8, rtu bool) []entry {
 		out = append(out, entry{"ParseTCPRequest", false, lib.ByName("ParseTCPRequest").F}, entry{p.Name, false, p.F})
 	}
 	return out
-}
-
-// same compares two library values field by field (slices by content; nil == empty).
-func same(a, b reflect.Value) bool {
-	for a.Kind() == reflect.Ptr || a.Kind() == reflect.Interface {
-		if a.IsNil() {
-			return false
-		}
-		a = a.Elem()
-	}
-	for b.Kind() == reflect.Ptr || b.Kind() == reflect.Interface {
-		if b.IsNil() {
-			return false
-		}
-		b = b.Elem()
-	}
-	if a.Type() != b.Type() {
-		return false
-	}
-	switch a.Kind() {
-	case reflect.Struct:
-		for i := 0; i < a.NumField(); i++ {
-			if !same(a.Field(i), b.Field(i)) {
-				return false
-			}
-		}
-		return true
-	case reflect.Slice:
-		if a.Len() != b.Len() {
-			return false
-		}
-		for i := 0; i < a.Len(); i++ {
-			if !same(a.Index(i), b.Index(i)) {
-				return false
-			}
-		}
-		return true
-	case reflect.Array:
-		for i := 0; i < a.Len(); i++ {
-			if !same(a.Index(i), b.Index(i)) {
-				return false
-			}
-		}
-		return true
-	default:
-		return a.Interface() == b.Interface()
-	}
 }
 
 func eval(c Case, res *ev.Result, lc *local) {
@@ -182,7 +134,7 @@ func eval(c Case, res *ev.Result, lc *local) {
 				res.Violate(ev.Violation{Check: "req", Kind: "rejects-legal", Attrs: classQty(a, c), Msg: fmt.Sprintf("%s(%s) = (%v, %v) for a legal request %+v", e.name, ev.Hex(in), v, err, c), Case: c})
 				continue
 			}
-			if !same(reflect.ValueOf(v), reflect.ValueOf(orig)) {
+			if !lib.Same(v, orig) {
 				res.Violate(ev.Violation{Check: "req", Kind: "decoded-differs", Attrs: attrs, Msg: fmt.Sprintf("%s(%s) = %+v, original %+v", e.name, ev.Hex(in), v, orig), Case: c})
 				continue
 			}
